@@ -37,7 +37,7 @@ CLSN = 'PrefetchedCourierServer'
 
 
 def run(ctx: Ctx):
-  for r in (r1, r2, r3, r4, r5, r8, r12, r13, r14, r15):
+  for r in (r1, r2, r3, r4, r5, r8, r12, r13, r14, r15, r16):
     ctx.guard(r)
   from mlmverif.props._queue import model as qmodel
   ctx.include('R-C15-6', '"never leaves a request blocked" / "end marker'
@@ -266,6 +266,31 @@ def r1(ctx: Ctx):
   ctx.floor(rule, 2, n)
 
 
+def _stop_family(repo):
+  """(the method that actually stops the prefetch queue, names of the methods that run it on every call).
+
+  `_stop_prefetch` may do the work itself or delegate to a twin that expects the generator lock to be held."""
+  ci = repo.cls(CS, CLSN)
+  body = None
+  for name, m in ci.methods.items():
+    if any(isinstance(x, ast.Call) and unparse(x.func) == 'self._generator.maybe_stop' and x.args for x in ast.walk(m.node)):
+      body = m
+  if body is None:
+    raise AnalysisError('no method of the prefetching server stops the prefetch queue with an exception')
+  names = {body.name}
+  changed = True
+  while changed:
+    changed = False
+    for name, m in ci.methods.items():
+      if name in names:
+        continue
+      if any(isinstance(x, ast.Call) and isinstance(x.func, ast.Attribute) and is_self_attr(x.func) and x.func.attr in names
+             for x in ast.walk(m.node)) and 'stop' in name:
+        names.add(name)
+        changed = True
+  return body, names
+
+
 def r2(ctx: Ctx):
   rule = 'R-C15-2'
   ctx.rule(rule, 'stop then start: in _init_iterator the call to'
@@ -274,8 +299,9 @@ def r2(ctx: Ctx):
            ' is the new queue\'s enqueue_from_iterator over the new generator')
   fi = ctx.repo.func(CS, f'{CLSN}._init_iterator')
   g = cfgm.cfg_of(fi.node)
-  stop = lambda n: any(isinstance(x, ast.Call) and unparse(x.func) == 'self._stop_prefetch'
-                       for x in cfgm.node_exprs(n))
+  _, stop_names = _stop_family(ctx.repo)
+  stop = lambda n: any(isinstance(x, ast.Call) and isinstance(x.func, ast.Attribute) and is_self_attr(x.func)
+                       and x.func.attr in stop_names for x in cfgm.node_exprs(n))
   newq = [n for n in g.nodes if isinstance(n.ast, ast.Assign) and is_self_attr(
       n.ast.targets[0], '_generator') and isinstance(n.ast.value, ast.Call)
           and 'IteratorQueue' in unparse(n.ast.value.func)]
@@ -327,7 +353,7 @@ def r3(ctx: Ctx):
   ctx.rule(rule, 'stop then join: in _stop_prefetch, maybe_stop(e) on the'
            ' queue dominates the join of the prefetch thread, and both happen'
            ' only when the generator is not exhausted')
-  fi = ctx.repo.func(CS, f'{CLSN}._stop_prefetch')
+  fi, _ = _stop_family(ctx.repo)
   g = cfgm.cfg_of(fi.node)
   ms = lambda n: any(isinstance(x, ast.Call) and unparse(x.func) == 'self._generator.maybe_stop'
                      and x.args for x in cfgm.node_exprs(n))
@@ -574,7 +600,7 @@ def r15(ctx: Ctx):
            ' thread to end — the join() it calls on the thread has no timeout (or the method re-checks is_alive() in a'
            ' loop). With a bounded join a generator that is inside one long step is still running when the new generator'
            ' starts, or when the server loop has finished: two generators execute at once')
-  fi = ctx.repo.func(CS, 'PrefetchedCourierServer._stop_prefetch')
+  fi, _ = _stop_family(ctx.repo)
   joins = [c for c in ast.walk(fi.node) if isinstance(c, ast.Call) and isinstance(c.func, ast.Attribute) and c.func.attr == 'join'
            and 'thread' in unparse(c.func.value).lower()]
   if not joins:
@@ -592,12 +618,47 @@ def r15(ctx: Ctx):
   ctx.floor(rule, 1)
 
 
+def r16(ctx: Ctx):
+  rule = 'R-C15-16'
+  ctx.rule(rule, '"initialising a new generator ... stops the previous one" for overlapping requests (a retry after a client-side'
+           ' timeout arrives while the first request is still constructing its generator): stopping the generator that is'
+           ' installed and installing the new one are ONE critical section of the generator lock — in _init_iterator the'
+           ' stop call and the store `self._generator = <new queue>` lie inside the same `with self._generator_lock` block,'
+           ' the stop first. With the stop outside, the second request finds the old generator already stopped, waits for'
+           ' the lock and overwrites the generator the first request installed: nobody stops that one, its prefetch thread'
+           ' stays blocked in put() for good')
+  fi = ctx.repo.func(CS, f'{CLSN}._init_iterator')
+  _, stop_names = _stop_family(ctx.repo)
+  withs = [w for w in ast.walk(fi.node) if isinstance(w, ast.With) and any(
+      unparse(it.context_expr) == 'self._generator_lock' for it in w.items)]
+  stores = [x for x in ast.walk(fi.node) if isinstance(x, ast.Assign) and any(is_self_attr(t, '_generator') for t in x.targets)]
+  if not stores:
+    raise AnalysisError(f'{rule}: _init_iterator no longer installs self._generator')
+  for st in stores:
+    w = next((w for w in withs if any(y is st for y in ast.walk(w))), None)
+    stops_in = [] if w is None else [c for c in ast.walk(w) if isinstance(c, ast.Call) and isinstance(c.func, ast.Attribute)
+                                     and is_self_attr(c.func) and c.func.attr in stop_names and c.lineno < st.lineno]
+    what = '_init_iterator: stop and replace under one hold of the generator lock'
+    if w is not None and stops_in:
+      ctx.ok(rule, fi, what, st)
+    else:
+      ctx.fail(rule, fi, what,
+               f'`{unparse(st)[:60]}` (line {st.lineno}) is not preceded, inside the same `with self._generator_lock` block, by a'
+               f' call that stops the installed generator ({sorted(stop_names)}): two overlapping init requests both see the OLD'
+               ' generator stopped, and the second overwrites the generator the first has installed without stopping it —'
+               ' that generator and its prefetch thread are orphaned', node=st)
+  ctx.floor(rule, 1)
+
+
 from mlmverif.selfcheck import B, OK  # noqa: E402
 
 _F = 'chainables/courier_server.py'
 VARIANTS = [
+    B('revert-stop-outside-the-replacing-critical-section', 'chainables/courier_server.py',
+      "    with self._generator_lock:\n      # Stopping the generator in place and installing the new one is one step:\n      # an overlapping request would otherwise overwrite, without stopping it,\n      # the generator this request installs.\n      self._stop_prefetch_locked()\n",
+      "    self._stop_prefetch()\n    with self._generator_lock:\n", 'R-C15-16'),
     B('stop-prefetch-bounded-join', 'chainables/courier_server.py',
-      '            self._enqueue_thread.join()', '            self._enqueue_thread.join(timeout=3)', 'R-C15-15'),
+      '        self._enqueue_thread.join()', '        self._enqueue_thread.join(timeout=3)', 'R-C15-15'),
     B('next-batch-does-not-refresh-heartbeat', 'chainables/courier_server.py',
       '    """Get the next batch from the iterator."""\n    self._last_heartbeat = time.time()\n',
       '    """Get the next batch from the iterator."""\n', 'R-C15-13'),
@@ -623,19 +684,19 @@ VARIANTS = [
       '    remaining = self._enqueue_start - self._enqueue_stop\n    return not remaining and self._enqueue_start >= self._max_enqueuer',
       'R-C15-9'),
     B('init-without-lock', _F,
-      '    with self._generator_lock:\n      logging.debug(\'chainable: %s\', f\'Constructing generator: {maybe_lazy}\')\n',
-      '    if True:\n      logging.debug(\'chainable: %s\', f\'Constructing generator: {maybe_lazy}\')\n',
+      '    with self._generator_lock:\n      # Stopping the generator in place',
+      '    if True:\n      # Stopping the generator in place',
       'R-C15-1'),
     B('init-without-stop', _F,
-      "    logging.info('chainable: %s', f'Initializing a generator: {maybe_lazy}')\n    self._stop_prefetch()\n",
-      "    logging.info('chainable: %s', f'Initializing a generator: {maybe_lazy}')\n", 'R-C15-2'),
+      "      self._stop_prefetch_locked()\n      logging.debug('chainable: %s', f'Constructing generator: {maybe_lazy}')",
+      "      logging.debug('chainable: %s', f'Constructing generator: {maybe_lazy}')", 'R-C15-2'),
     B('thread-not-started', _F, '      self._enqueue_thread.start()\n', '', 'R-C15-2'),
     B('join-before-stop', _F,
-      '          self._generator.maybe_stop(e)\n          if self._enqueue_thread:\n            self._enqueue_thread.join()',
-      '          if self._enqueue_thread:\n            self._enqueue_thread.join()\n          self._generator.maybe_stop(e)',
+      '      self._generator.maybe_stop(e)\n      if self._enqueue_thread:\n        self._enqueue_thread.join()',
+      '      if self._enqueue_thread:\n        self._enqueue_thread.join()\n      self._generator.maybe_stop(e)',
       'R-C15-3'),
-    B('stop-even-if-exhausted', _F, '        if not self._generator.exhausted:\n',
-      '        if True:\n', 'R-C15-3'),
+    B('stop-even-if-exhausted', _F, '    if self._generator is not None and not self._generator.exhausted:\n',
+      '    if self._generator is not None:\n', 'R-C15-3'),
     B('nonblocking-batch', _F, '      result = self._generator.get_batch(batch_size, block=True)',
       '      result = self._generator.get_batch(batch_size)', 'R-C15-4'),
     B('marker-always', _F, '    if not self._generator:\n      if (e := self._generator.exception) is not None:',
